@@ -280,7 +280,14 @@ func hashStr(s string) uint32 {
 // solveOne decides one obligation. A goal of the form g1 => (g2 => (c1 and c2 ...)) that is not decided as a whole is
 // decided conjunct by conjunct (every conjunct must be unsat): the solvers split such goals poorly when a conjunct is
 // quantified.
+// expectedFailures: obligations recorded as known findings. They are still posed on every run (a fixed defect must show
+// up as discharged), but with a short budget.
+var expectedFailures = map[string]bool{}
+
 func solveOne(outDir, bg string, o *Obligation, tier string, budget, seed int) *Result {
+	if expectedFailures[o.Name] {
+		return solveWhole(outDir, bg, o, tier, 2, seed) // one short round with every solver
+	}
 	parts := splitGoal(o.Goal)
 	if len(parts) < 2 || o.Class == "cover" {
 		return solveWhole(outDir, bg, o, tier, budget, seed)
